@@ -24,6 +24,7 @@ EXPLANATION = (
     "mutation is reachable from an accessor other than through the evaluator; R11.4 the provider look-up answers from the session store and the source only, with no memo that would make a repeated run differ (= R13.5). Does not decide: determinism inside sqlfluff/sqlparse/"
     "networkx, order taint carried through graph insertion order, generated names of anonymous sub-queries."
     ' A sort of an unordered collection must use a key that is computed from the element as a whole (a key of single components leaves ties in set order). R11.3 also sees mutation through a local that is the stored object itself.'
+    ' R11.7 nothing that can be consumed only once (zip / map / filter / generator) is kept in an attribute.'
 )
 RULE_TEXT = (
     "R11.1: one obligation per consumption site of an unordered expression in the package (semantic key = function:source:consumer); "
